@@ -45,7 +45,36 @@ var DefaultPkgs = []string{
 	"pkg/ipam/schedulerplugin",
 	"pkg/ipam/crd",
 	"pkg/ipam/api",
+	"pkg/galaxy",
+	"pkg/api/cniutil",
+	"pkg/network/portmapping",
+	"pkg/policy",
 }
+
+// monitoredFields: per package directory, the struct field names whose every access is reported to the happens-before
+// monitor (coop.Access). Selector expressions are matched by field name (purely syntactic).
+var monitoredFields = map[string]map[string]bool{
+	"pkg/ipam/floatingip":      {"allocatedFIPs": true, "unallocatedFIPs": true, "FloatingIPs": true},
+	"pkg/ipam/schedulerplugin": {"nodeSubnet": true, "lastIPConf": true, "keyToGVR": true},
+	"pkg/ipam/crd":             {"startedInformers": true},
+	"pkg/galaxy":               {"netConf": true},
+	"pkg/network/portmapping":  {"podPortMap": true},
+	"pkg/policy":               {"policies": true},
+}
+
+// mapIdentityFields: map-typed fields that are monitored by the identity of the map object (they are handed around).
+var mapIdentityFields = map[string]map[string]bool{
+	"pkg/api/cniutil": {"Conf": true},
+}
+
+// pointFuncs: functions at whose entry a scheduling point is inserted (plugin invocations and state-file accesses).
+var pointFuncs = map[string]map[string]bool{
+	"pkg/api/cniutil": {"DelegateAdd": true, "DelegateDel": true, "saveNetworkInfo": true, "consumeNetworkInfo": true},
+	"pkg/galaxy":      {"setupPortMapping": true, "cleanupPortMapping": true},
+}
+
+// spawnFuncs: `go f(args)` statements calling one of these become managed threads under the scheduler.
+var spawnFuncs = map[string]bool{"syncPodChains": true}
 
 // rotFuncs: functions in which iteration order over the tables is an environment choice.
 var rotFuncs = map[string]bool{
@@ -275,6 +304,8 @@ func rewriteFile(rel string, src []byte, rep *Report) ([]byte, int, error) {
 			return true
 		})
 	}
+	// 5. access monitoring, scheduling points, spawned goroutines
+	n += instrumentAccesses(f, pkgDir, needImports, rep)
 	// add imports
 	for p, name := range needImports {
 		addImport(f, name, p)
@@ -302,4 +333,266 @@ func addImport(f *ast.File, name, path string) {
 	gd := &ast.GenDecl{Tok: token.IMPORT, Specs: []ast.Spec{spec}}
 	f.Decls = append([]ast.Decl{gd}, f.Decls...)
 	f.Imports = append(f.Imports, spec)
+}
+
+// ---------------------------------------------------------------------------------------------
+// access monitoring / points / spawn
+
+func callCoop(fn string, args ...ast.Expr) *ast.ExprStmt {
+	return &ast.ExprStmt{X: &ast.CallExpr{Fun: &ast.SelectorExpr{X: ast.NewIdent("vcoop"), Sel: ast.NewIdent(fn)}, Args: args}}
+}
+
+func strLit(s string) ast.Expr { return &ast.BasicLit{Kind: token.STRING, Value: strconv.Quote(s)} }
+
+func boolLit(b bool) ast.Expr {
+	if b {
+		return ast.NewIdent("true")
+	}
+	return ast.NewIdent("false")
+}
+
+type accessInfo struct {
+	expr  ast.Expr
+	name  string
+	write bool
+	byMap bool
+}
+
+// collectAccesses finds monitored selector expressions in the given nodes (not descending into function literals).
+func collectAccesses(pkgDir string, nodes []ast.Node, writes map[ast.Expr]bool) []accessInfo {
+	fields, idFields := monitoredFields[pkgDir], mapIdentityFields[pkgDir]
+	var out []accessInfo
+	seen := map[string]int{}
+	for _, nd := range nodes {
+		if nd == nil {
+			continue
+		}
+		ast.Inspect(nd, func(x ast.Node) bool {
+			if _, ok := x.(*ast.FuncLit); ok {
+				return false
+			}
+			sel, ok := x.(*ast.SelectorExpr)
+			if !ok {
+				return true
+			}
+			byMap := idFields[sel.Sel.Name]
+			if !fields[sel.Sel.Name] && !byMap {
+				return true
+			}
+			// the receiver must be a plain identifier or selector chain (addressable, side-effect free)
+			switch sel.X.(type) {
+			case *ast.Ident, *ast.SelectorExpr:
+			default:
+				return true
+			}
+			key := types.ExprString(sel)
+			w := writes[sel]
+			if i, dup := seen[key]; dup {
+				if w {
+					out[i].write = true
+				}
+				return true
+			}
+			seen[key] = len(out)
+			out = append(out, accessInfo{expr: sel, name: key, write: w, byMap: byMap})
+			return true
+		})
+	}
+	return out
+}
+
+// writtenSelectors marks selector expressions that a statement writes: assignment targets (also through index
+// expressions), ++/--, and the first argument of delete().
+func writtenSelectors(st ast.Stmt, writes map[ast.Expr]bool) {
+	base := func(e ast.Expr) {
+		for {
+			switch v := e.(type) {
+			case *ast.IndexExpr:
+				e = v.X
+				continue
+			case *ast.ParenExpr:
+				e = v.X
+				continue
+			case *ast.SelectorExpr:
+				writes[v] = true
+			}
+			return
+		}
+	}
+	switch s := st.(type) {
+	case *ast.AssignStmt:
+		for _, l := range s.Lhs {
+			base(l)
+		}
+	case *ast.IncDecStmt:
+		base(s.X)
+	}
+	ast.Inspect(st, func(x ast.Node) bool {
+		if _, ok := x.(*ast.FuncLit); ok {
+			return false
+		}
+		if c, ok := x.(*ast.CallExpr); ok {
+			if id, ok := c.Fun.(*ast.Ident); ok && id.Name == "delete" && len(c.Args) > 0 {
+				base(c.Args[0])
+			}
+		}
+		return true
+	})
+}
+
+func accessStmts(acc []accessInfo) []ast.Stmt {
+	var out []ast.Stmt
+	for _, a := range acc {
+		if a.byMap {
+			out = append(out, callCoop("AccessMap", a.expr, strLit(a.name), boolLit(a.write)))
+		} else {
+			out = append(out, callCoop("AccessAddr", &ast.UnaryExpr{Op: token.AND, X: a.expr}, strLit(a.name), boolLit(a.write)))
+		}
+	}
+	return out
+}
+
+func instrumentAccesses(f *ast.File, pkgDir string, needImports map[string]string, rep *Report) int {
+	n := 0
+	hasMon := len(monitoredFields[pkgDir]) > 0 || len(mapIdentityFields[pkgDir]) > 0
+	var doList func(list []ast.Stmt) []ast.Stmt
+	var doStmt func(st ast.Stmt)
+	headerNodes := func(st ast.Stmt) []ast.Node {
+		switch s := st.(type) {
+		case *ast.IfStmt:
+			return []ast.Node{s.Init, s.Cond}
+		case *ast.ForStmt:
+			return []ast.Node{s.Init, s.Cond, s.Post}
+		case *ast.RangeStmt:
+			return []ast.Node{s.X}
+		case *ast.SwitchStmt:
+			return []ast.Node{s.Init, s.Tag}
+		case *ast.TypeSwitchStmt:
+			return []ast.Node{s.Init, s.Assign}
+		case *ast.BlockStmt, *ast.CaseClause, *ast.CommClause, *ast.SelectStmt, *ast.LabeledStmt:
+			return nil
+		}
+		return []ast.Node{st}
+	}
+	fixNil := func(nodes []ast.Node) []ast.Node {
+		var out []ast.Node
+		for _, nd := range nodes {
+			if nd == nil {
+				continue
+			}
+			// typed nil interface values
+			switch v := nd.(type) {
+			case ast.Stmt:
+				if v == nil {
+					continue
+				}
+			case ast.Expr:
+				if v == nil {
+					continue
+				}
+			}
+			out = append(out, nd)
+		}
+		return out
+	}
+	doFuncLits := func(nd ast.Node) {
+		if nd == nil {
+			return
+		}
+		ast.Inspect(nd, func(x ast.Node) bool {
+			if fl, ok := x.(*ast.FuncLit); ok {
+				fl.Body.List = doList(fl.Body.List)
+				return false
+			}
+			return true
+		})
+	}
+	doStmt = func(st ast.Stmt) {
+		switch s := st.(type) {
+		case *ast.BlockStmt:
+			s.List = doList(s.List)
+		case *ast.IfStmt:
+			s.Body.List = doList(s.Body.List)
+			if s.Else != nil {
+				doStmt(s.Else)
+			}
+		case *ast.ForStmt:
+			s.Body.List = doList(s.Body.List)
+		case *ast.RangeStmt:
+			s.Body.List = doList(s.Body.List)
+		case *ast.SwitchStmt:
+			doStmt(s.Body)
+		case *ast.TypeSwitchStmt:
+			doStmt(s.Body)
+		case *ast.SelectStmt:
+			doStmt(s.Body)
+		case *ast.CaseClause:
+			s.Body = doList(s.Body)
+		case *ast.CommClause:
+			s.Body = doList(s.Body)
+		case *ast.LabeledStmt:
+			doStmt(s.Stmt)
+		}
+	}
+	doList = func(list []ast.Stmt) []ast.Stmt {
+		var out []ast.Stmt
+		for _, st := range list {
+			// spawned goroutines
+			if g, ok := st.(*ast.GoStmt); ok {
+				if id, ok := g.Call.Fun.(*ast.Ident); ok && spawnFuncs[id.Name] {
+					var pre []ast.Stmt
+					var args []ast.Expr
+					for i, a := range g.Call.Args {
+						tmp := fmt.Sprintf("vga__%d", i)
+						pre = append(pre, &ast.AssignStmt{Lhs: []ast.Expr{ast.NewIdent(tmp)}, Tok: token.DEFINE, Rhs: []ast.Expr{a}})
+						args = append(args, ast.NewIdent(tmp))
+					}
+					body := &ast.FuncLit{Type: &ast.FuncType{Params: &ast.FieldList{}}, Body: &ast.BlockStmt{List: []ast.Stmt{
+						&ast.ExprStmt{X: &ast.CallExpr{Fun: g.Call.Fun, Args: args}}}}}
+					pre = append(pre, callCoop("Spawn", strLit(id.Name), body))
+					out = append(out, &ast.BlockStmt{List: pre})
+					needImports[shimCoop] = "vcoop"
+					n++
+					rep.Rewrites["go->Spawn"]++
+					continue
+				}
+			}
+			if hasMon {
+				writes := map[ast.Expr]bool{}
+				hn := fixNil(headerNodes(st))
+				for _, h := range hn {
+					if hs, ok := h.(ast.Stmt); ok {
+						writtenSelectors(hs, writes)
+					}
+				}
+				acc := collectAccesses(pkgDir, hn, writes)
+				if len(acc) > 0 {
+					out = append(out, accessStmts(acc)...)
+					needImports[shimCoop] = "vcoop"
+					n += len(acc)
+					rep.Rewrites["access"] += len(acc)
+				}
+			}
+			doStmt(st)
+			for _, h := range fixNil(headerNodes(st)) {
+				doFuncLits(h)
+			}
+			out = append(out, st)
+		}
+		return out
+	}
+	for _, d := range f.Decls {
+		fd, ok := d.(*ast.FuncDecl)
+		if !ok || fd.Body == nil {
+			continue
+		}
+		fd.Body.List = doList(fd.Body.List)
+		if pointFuncs[pkgDir][fd.Name.Name] {
+			fd.Body.List = append([]ast.Stmt{callCoop("Point", strLit("cni"), strLit(fd.Name.Name))}, fd.Body.List...)
+			needImports[shimCoop] = "vcoop"
+			n++
+			rep.Rewrites["point"]++
+		}
+	}
+	return n
 }
